@@ -22,10 +22,12 @@ Import ListNotations.
 Open Scope N_scope.
 
 (* Which tree the run-time correspondence is held against:
-   false = /repo as pinned (check_uuids_exist_fast accepts a set of new references as soon as ONE of
-           them is live and the others still exist recycled or tombstoned);
-   true  = /repo with /verif/fixes/C16.patch committed (every new reference must be live). *)
-Definition tree_fixed : bool := false.
+   true  = /repo HEAD since commit bbee457 ("referential integrity must check every new reference,
+           not just one"): every new reference must be live;
+   false = the tree BEFORE that commit (check_uuids_exist_fast accepted a set of new references as soon
+           as ONE of them was live and the others still existed recycled or tombstoned).  Kept only as
+           documentation of the defect this check found (the `_prefix` theorems in Props.v). *)
+Definition tree_fixed : bool := true.
 
 Inductive status := Live | Rec | Tomb | Gone.
 Definition refs := list (N * list N).
@@ -365,7 +367,8 @@ Fixpoint run_agree (fx : bool) (s : state) (steps : list ostep) : bool :=
   | [] => true
   | OStep o code post dbd :: r =>
       let '(s', c) := step fx s o in
-      (c =? code) && oents_eqb (absS s') post && run_agree fx s' r
+      (* on the repaired tree the model also predicts that the whole-database scan finds nothing *)
+      (c =? code) && oents_eqb (absS s') post && implb fx (dbd =? 0) && run_agree fx s' r
   end.
 
 (* two replicas: a local op is replayed from that replica's own previous dump; what incremental
@@ -427,51 +430,27 @@ Definition pcheck (c : case) : bool :=
   | CRepl a b steps => nd_dump a && nd_dump b && rtrace_ok steps
   end.
 
-(* ------------------------------------------------------------------ known classes (pinned tree only) *)
-(* class mixed-new-references: some committed write of the history introduces references that mix a
-   live target with a target that is not live (refint::check_uuids_exist_fast accepts it); on two
-   replicas also a replication whose added references mix them (refint::post_repl_incremental uses
-   the same fast check, so nothing is cleaned).
-   class dyngroup-lists-recycled-after-replication (two replicas only): dyngroup::post_modify /
-   post_create test candidate entries against the raw dynamic-group filter without masking recycled
-   ones, so on the consumer idm_all_persons / idm_all_accounts list as DynMember an account that
-   arrives (or stays, when a uuid conflict forces re-assertion) RECYCLED, and the conflict copies.
-   The dynamic groups are outside the tracked universe: the class is recognised by its trigger — a
-   replication that leaves an account (person or OAuth2 client) recycled on the consumer, or a uuid
-   created on both replicas.  (The single-server form — full re-evaluation of a dynamic group after
-   the revive of an account — was repaired by /repo commit bca7876 and is no longer a class.) *)
-Definition is_account (e : ent) : bool := (ekind e =? 0) || (ekind e =? 3).
-Definition created_ids (o : op) : list N := match o with OCreate l => map fst l | _ => [] end.
-Definition known_step (s : state) (o : op) : bool := mixed s o.
-Fixpoint known_run (s : state) (steps : list ostep) : bool :=
+(* ------------------------------------------------------------------ known classes *)
+(* None: both defects this check found are repaired in /repo —
+     bbee457  refint::check_uuids_exist_fast accepted new references that mix a live target with
+              recycled / tombstoned ones (also through post_repl_incremental);
+     bca7876 + 239e98c  dynamic groups listed RECYCLED accounts as DynMember (after the revive of an
+              account; after a replication that delivers a recycled or conflicting account). *)
+Definition known (_ : case) : bool := false.
+
+(* DOCUMENTATION ONLY (tree before bbee457): recogniser of the former class "mixed-new-references" —
+   some committed write of the history introduces references that mix a live target with a target
+   that is not live.  Used by the `_prefix` theorems; not used by `known`. *)
+Definition prefix_class_step (s : state) (o : op) : bool := mixed s o.
+Fixpoint prefix_class_run (s : state) (steps : list ostep) : bool :=
   match steps with
   | [] => false
   | OStep o _ _ _ :: r =>
       let '(s', c) := step false s o in
-      ((c =? 0) && known_step s o) || known_run s' r
+      ((c =? 0) && prefix_class_step s o) || prefix_class_run s' r
   end.
-(* observable analogue of [repl_mixed]: the stored references that a replication added on the consumer
-   mix a live target with one that is not live *)
-Definition obs_repl_mixed (pre post : state) : bool :=
-  let new := fresh_of (flat_map (fun e => targets (erefs e)) pre)
-                      (flat_map (fun e => if is_live (est e) then targets (erefs e) else []) post) in
-  existsb (live_id post) new && existsb (fun t => negb (live_id post t)) new.
-Fixpoint rknown_run (a b : list oent) (steps : list rstep) : bool :=
-  match steps with
-  | [] => false
-  | RLocal onB o code post _ :: r =>
-      ((code =? 0)
-       && (known_step (map of_obs (if onB then b else a)) o
-           || existsb (fun x => present_id (map of_obs (if onB then a else b)) x) (created_ids o)))
-      || (if onB then rknown_run a post r else rknown_run post b r)
-  | RRepl toB _ post _ :: r =>
-      obs_repl_mixed (map of_obs (if toB then b else a)) (map of_obs post)
-      || existsb (fun e => is_rec (est e) && is_account e) (map of_obs post)
-      || (if toB then rknown_run a post r else rknown_run post b r)
-  end.
-Definition known_gen (c : case) : bool :=
+Definition prefix_class (c : case) : bool :=
   match c with
-  | CHist init steps => known_run (map of_obs init) steps
-  | CRepl a b steps => rknown_run a b steps
+  | CHist init steps => prefix_class_run (map of_obs init) steps
+  | CRepl _ _ _ => false
   end.
-Definition known (c : case) : bool := negb tree_fixed && known_gen c.
